@@ -3,7 +3,7 @@ path."""
 import os
 import z3
 from pyvc import spec
-from . import put, trashdirs, purge, dates, restore, readers, scenarios, c03
+from . import put, trashdirs, purge, dates, restore, readers, scenarios, c03, options
 from .common import SV
 
 PROPERTY = 'C02'
@@ -20,6 +20,9 @@ LEVEL_NOTE = ('inverse pair over contracts: the writer records location L with '
               'entry printed at index i is the one restored for reply i '
               '(pipeline VC)')
 EXPECTED = [
+    'restore-options/trash-dir-is-the-option-value',
+    'restore-options/path-is-the-operand-under-the-current-directory-normalised',
+    'put-options/trash-dir-is-the-last-trash-dir-value',
     'trashcli.put.original_location.OriginalLocation.for_file/post/relative-location-rejoins-to-the-absolute-one',
     'trashcli.put.original_location.OriginalLocation.for_file/post/absolute-location-is-realpath-of-parent-slash-basename',
     'trashcli.put.janitor_tools.info_creator.TrashInfoCreator.make_trashinfo_data/post/info-is-named-after-the-entry',
@@ -82,6 +85,8 @@ def build(S, tier, seed):
     restore.restore_one_vc(S)
     restore.sort_vc(S)
     restore.pipeline_vc(S)
+    options.restore_options_vc(S)
+    options.put_options_vc(S)
     _lemmas(S)
 
 
